@@ -62,6 +62,17 @@ TEXT = {
         note="Trusts the model in harness/src/c18.rs; re-inserting a present id is outside the documented precondition and not generated. "
              "The property's 'all sequences up to length 10' is reached only modulo model-state equivalence (state cover), full sequences to length 7.",
         ref="DESIGN.md §4 C18"),
+    "C12": dict(
+        technique="runtime schedule exploration on real threads with park/wake probes and a state-free spurious-wake test; Miri scheduler with virtual clock",
+        text="Runtime monitoring of the mutex/condvar protocol on the implementation: >= 12 000 (quick) / 1 000 000 (thorough) randomized "
+             "schedules of one waiter (credit or reconnect, far-future deadline) against 1..3 signalling threads issuing ack, cancel, advance, "
+             "resume, send and spurious wakes; every operation and the waiter's park/wake probe events are stamped from one counter. A lost "
+             "wake-up is decided logically (condition true in the observable state, waiter still parked after a grace period with a quiet "
+             "heartbeat, returns only after a notify_all that changes no state), early and never-returning timeouts by comparing with the "
+             "deadline. The same scenarios run under Miri (64 / 2048 seeds) whose virtual clock turns a missed notification into a Timeout at a "
+             "10^6 s deadline. The property's exhaustive lock-step model is another technique and is not claimed.",
+        note="Sampled schedules, not all interleavings; trusts the H4 probes (recorded under the control's own mutex) and Miri's scheduler.",
+        ref="DESIGN.md §4 C12"),
 }
 
 ALL = [f"C{i:02d}" for i in range(1, 20)]
